@@ -6,6 +6,9 @@ From RPFT Require Import Base.Sexp Base.PyStr Base.PyStrFacts Base.Result Gen.Ta
      Flow.RowSem Comp.Compile Comp.CompileFacts Comp.CompileIds Comp.Refine.
 Import ListNotations.
 
+Section WithNames.
+Context {GN : GenNames}.
+
 (* ---------------------------------------------------------------- lists *)
 Lemma Forall2_length' {X Y} (P : X -> Y -> Prop) l l' : Forall2 P l l' -> length l = length l'.
 Proof. induction 1; cbn; congruence. Qed.
@@ -32,6 +35,14 @@ Proof. intros H Hxy. apply Forall2_app; [exact H|constructor; [exact Hxy|constru
 
 Lemma Forall2_impl {X Y} (P Q : X -> Y -> Prop) l l' : (forall x y, P x y -> Q x y) -> Forall2 P l l' -> Forall2 Q l l'.
 Proof. intros H F. induction F; constructor; auto. Qed.
+
+Lemma Forall2_and_in {X Y} (P : X -> Y -> Prop) l l' : Forall2 P l l' -> Forall2 (fun x y => P x y /\ In y l') l l'.
+Proof.
+  intros H. assert (G : forall l0, incl l' l0 -> Forall2 (fun x y => P x y /\ In y l0) l l'); [|apply G, incl_refl].
+  induction H as [|a b l l' Hab _ IH]; intros l0 Hi; constructor.
+  - split; [exact Hab|apply Hi; left; reflexivity].
+  - apply IH. intros y Hy. apply Hi. right. exact Hy.
+Qed.
 
 (* find on two related lists finds at the same position *)
 Lemma find_Forall2 {X Y} (P : X -> Y -> Prop) (p : X -> bool) (q : Y -> bool) l l' :
@@ -112,13 +123,74 @@ Qed.
 Lemma cat_sim_mono phi uu phi' uu' x c : phi_le phi phi' -> grows uu uu' -> cat_sim phi uu x c -> cat_sim phi' uu' x c.
 Proof. intros Hp Hu [H1 H2]. split; [exact H1|eapply dest_sim_mono; eauto]. Qed.
 
+(* a name the sheet leaves open *)
+Lemma name_sim_wild n : (explicit_names_claimed = false -> gname n) -> name_sim CWild n.
+Proof. intros H. unfold name_sim. destruct explicit_names_claimed; [exact I|apply H; reflexivity]. Qed.
+
+(* ---------------------------------------------------------------- the marks of invented names *)
+Lemma marks_Forall2_same (a : list id) (l1 l2 : list (cname * dest)) (l1' l2' : list ccat) :
+  map fst l2 = map fst l1 -> map cc_uuid l2' = map cc_uuid l1' ->
+  Forall2 (fun x c => memb (cc_uuid c) a = match fst x with CWild => true | CFixed _ => false end) l1 l1' ->
+  Forall2 (fun x c => memb (cc_uuid c) a = match fst x with CWild => true | CFixed _ => false end) l2 l2'.
+Proof.
+  intros E1 E2 H. revert l2 l2' E1 E2. induction H as [|x c l l' Hxc _ IH]; intros [|x2 l2] [|c2 l2']; cbn; try discriminate; [constructor|].
+  intros E1 E2. injection E1 as Ex E1. injection E2 as Ec E2. constructor; [rewrite Ec, Ex; exact Hxc|apply IH; assumption].
+Qed.
+
+Lemma marks_same d d' r r' :
+  map fst (rd_cats d') = map fst (rd_cats d) -> map cc_uuid (sw_cats r') = map cc_uuid (sw_cats r) ->
+  map cc_name (sw_all_cats r') = map cc_name (sw_all_cats r) -> sw_auto r' = sw_auto r -> marks_ok d r -> marks_ok d' r'.
+Proof.
+  intros E1 E2 E3 E4 [M1 M2 M3]. constructor.
+  - rewrite E4. eapply marks_Forall2_same; eauto.
+  - rewrite E4, E2. exact M2.
+  - rewrite E3. exact M3.
+Qed.
+
+Lemma map_update_same {X Y} (h : X -> Y) (l : list X) i x y : nth_error l i = Some y -> h x = h y -> map h (RowSem.update l i x) = map h l.
+Proof.
+  revert i. induction l as [|a r IH]; intros [|i]; cbn; try discriminate.
+  - intros E Hh. injection E as ->. rewrite Hh. reflexivity.
+  - intros E Hh. rewrite (IH i E Hh). reflexivity.
+Qed.
+
+Lemma set_cat_dest_fst l i d : map fst (set_cat_dest l i d) = map fst l.
+Proof.
+  unfold set_cat_dest. destruct (nth_error l i) as [[c d0]|] eqn:E; [|reflexivity].
+  eapply (map_update_same fst l i (c, d) (c, d0)); [exact E|reflexivity].
+Qed.
+
+Lemma upd_first_map' {X Y} (p : X -> bool) (f : X -> X) (h : X -> Y) l : (forall c, h (f c) = h c) -> map h (upd_first p f l) = map h l.
+Proof. apply upd_first_map. Qed.
+
+Lemma sw_upd_cat_names p d r : map cc_name (sw_all_cats (sw_upd_cat p (fun c => cat_set_dest c d) r)) = map cc_name (sw_all_cats r).
+Proof. rewrite sw_all_cats_upd_cat. apply upd_first_map. reflexivity. Qed.
+
+Lemma sw_upd_cat_auto p f r : sw_auto (sw_upd_cat p f r) = sw_auto r.
+Proof.
+  unfold sw_upd_cat. destruct (existsb p (sw_cats r)); [reflexivity|]. destruct (p (sw_default r)); [reflexivity|].
+  destruct (sw_wait r) as [| |t c]; try reflexivity. destruct (p c); reflexivity.
+Qed.
+
+Lemma sw_upd_cat_cats_uuid p f r : (forall c, cc_uuid (f c) = cc_uuid c) -> map cc_uuid (sw_cats (sw_upd_cat p f r)) = map cc_uuid (sw_cats r).
+Proof.
+  intros H. unfold sw_upd_cat. destruct (existsb p (sw_cats r)); [cbn; apply upd_first_map; exact H|]. destruct (p (sw_default r)); [reflexivity|].
+  destruct (sw_wait r) as [| |t c]; try reflexivity. destruct (p c); reflexivity.
+Qed.
+
 Lemma dec_sim_mono phi uu phi' uu' d r : phi_le phi phi' -> grows uu uu' -> dec_sim phi uu d r -> dec_sim phi' uu' d r.
 Proof.
-  intros Hp Hu [H1 H2 H3 H4 H5 H6 H7 H8]. constructor; try assumption.
+  intros Hp Hu [H1 H2 H3 H4 H5 H6 H7 H8 H9]. constructor; try assumption.
   - unfold wait_sim in *. destruct (rd_wait d), (sw_wait r); try assumption.
     destruct H4 as (E & x & Ex & Hx). split; [exact E|]. exists x. split; [exact Ex|eapply cat_sim_mono; eauto].
   - eapply Forall2_impl; [|exact H5]. intros x y. apply cat_sim_mono; assumption.
   - eapply cat_sim_mono; eauto.
+Qed.
+
+Lemma rand_sim_mono phi uu phi' uu' d r : phi_le phi phi' -> grows uu uu' -> rand_sim phi uu d r -> rand_sim phi' uu' d r.
+Proof.
+  intros Hp Hu [H1 H2 H3 H4]. constructor; try assumption.
+  eapply Forall2_impl; [|exact H3]. intros x y [A B]. split; [exact A|eapply dest_sim_mono; eauto].
 Qed.
 
 Lemma node_sim_mono phi uu phi' uu' n nd o : phi_le phi phi' -> grows uu uu' -> node_sim phi uu n nd o -> node_sim phi' uu' n nd o.
@@ -126,6 +198,7 @@ Proof.
   intros Hp Hu H. destruct H.
   - eapply NS_basic; eauto. eapply dest_sim_mono; eauto.
   - eapply NS_router; eauto. eapply dec_sim_mono; eauto.
+  - eapply NS_random; eauto. eapply rand_sim_mono; eauto.
   - eapply NS_implicit; eauto. eapply dec_sim_mono; eauto.
 Qed.
 
@@ -141,7 +214,7 @@ Proof. unfold sw_update_default, sw_all_cats. cbn. rewrite !map_app. cbn. destru
 Lemma dec_sim_set_default d r tgt d' :
   dec_sim phi uu d r -> dest_sim phi uu tgt d' -> dec_sim phi uu (set_default d tgt) (sw_update_default r d' []).
 Proof.
-  intros [H1 H2 H3 H4 H5 H6 H7 H8] Hd. constructor.
+  intros [H1 H2 H3 H4 H5 H6 H7 H8 H9] Hd. constructor.
   - exact H1.
   - exact H2.
   - exact H3.
@@ -150,10 +223,12 @@ Proof.
   - destruct H6 as [Hn _]. split; [exact Hn|exact Hd].
   - rewrite (sw_all_cats_uuid_update_default r d' []). exact H7.
   - rewrite (sw_all_cats_uuid_update_default r d' []). exact H8.
+  - eapply marks_same; [| | | |exact H9]; try reflexivity.
+    unfold sw_update_default, sw_all_cats. cbn. rewrite !map_app. reflexivity.
 Qed.
 
 Lemma plain_set_default d tgt : plain_dec d -> plain_dec (set_default d tgt).
-Proof. auto. Qed.
+Proof. intros (H1 & H2 & H3). split; [exact H1|split; [exact H2|exact H3]]. Qed.
 
 Lemma shape_set_default cls d tgt : shape_ok cls d -> shape_ok cls (set_default d tgt).
 Proof. destruct cls; auto. Qed.
@@ -170,8 +245,11 @@ Lemma dec_sim_noresp d r nm x tgt d' :
   dec_sim phi uu (mkDec (rd_random d) (rd_operand d) (rd_wait d) (rd_result d) (rd_cases d) (rd_cats d) (rd_default d) (Some (nm, tgt)))
           (sw_update_noresp r d').
 Proof.
-  intros [H1 H2 H3 H4 H5 H6 H7 H8] En Hd.
+  intros [H1 H2 H3 H4 H5 H6 H7 H8 H9] En Hd.
   rewrite <- (sw_all_cats_uuid_update_noresp r d') in H7, H8.
+  assert (H9' : marks_ok (mkDec (rd_random d) (rd_operand d) (rd_wait d) (rd_result d) (rd_cases d) (rd_cats d) (rd_default d) (Some (nm, tgt))) (sw_update_noresp r d')).
+  { eapply marks_same; [| | | |exact H9]; try reflexivity; unfold sw_update_noresp; destruct (sw_wait r) as [| |t0 c0] eqn:E0; try reflexivity.
+    unfold sw_all_cats. cbn. rewrite E0. rewrite !map_app. reflexivity. }
   unfold sw_update_noresp in *. unfold wait_sim in H4.
   destruct (rd_wait d) as [| |t z] eqn:Ew, (sw_wait r) as [| |t' c] eqn:Ec; try contradiction; try congruence.
   destruct H4 as (Et & y & Ey & Hy). rewrite En in Ey. injection Ey as <-.
@@ -185,17 +263,18 @@ Proof.
   - exact H6.
   - exact H7.
   - exact H8.
+  - exact H9'.
 Qed.
 
 Lemma wait_sim_noresp_none d r : dec_sim phi uu d r -> rd_noresp d = None -> match sw_wait r with CWTimeout _ _ => False | _ => True end.
 Proof.
-  intros [_ _ _ H4 _ _ _ _] En. unfold wait_sim in H4. destruct (rd_wait d), (sw_wait r); try contradiction; auto.
+  intros [_ _ _ H4 _ _ _ _ _] En. unfold wait_sim in H4. destruct (rd_wait d), (sw_wait r); try contradiction; auto.
   destruct H4 as (_ & x & Ex & _). congruence.
 Qed.
 
 Lemma wait_sim_noresp_some d r nm x : dec_sim phi uu d r -> rd_noresp d = Some (nm, x) -> exists t c, sw_wait r = CWTimeout t c.
 Proof.
-  intros [_ _ _ H4 _ _ _ _] En. unfold wait_sim in H4. destruct (rd_wait d), (sw_wait r) as [| |t c]; try contradiction; try congruence.
+  intros [_ _ _ H4 _ _ _ _ _] En. unfold wait_sim in H4. destruct (rd_wait d), (sw_wait r) as [| |t c]; try contradiction; try congruence.
   exists t, c. reflexivity.
 Qed.
 
@@ -206,7 +285,7 @@ Lemma dec_sim_set_cat d r i u tgt d' :
                         (rd_default d) (rd_noresp d))
           (sw_upd_cat (uuid_is u) (fun c => cat_set_dest c d') r).
 Proof.
-  intros [H1 H2 H3 H4 H5 H6 H7 H8] Hi Hu Hd.
+  intros [H1 H2 H3 H4 H5 H6 H7 H8 H9] Hi Hu Hd.
   assert (Hlen := Forall2_length' _ _ _ H5).
   destruct (nth_error (rd_cats d) i) as [[cn0 d0]|] eqn:Ei; [|apply nth_error_None in Ei; lia].
   destruct (Forall2_nth _ _ _ _ _ H5 Ei) as (c & Ec & Hc).
@@ -232,6 +311,13 @@ Proof.
   destruct Ecats as (E1 & E2 & E3 & E4 & E5).
   assert (Euu : map cc_uuid (sw_all_cats (sw_upd_cat (uuid_is (cc_uuid c)) (fun x => cat_set_dest x d') r)) = map cc_uuid (sw_all_cats r)).
   { rewrite sw_all_cats_upd_cat. apply upd_first_map. reflexivity. }
+  assert (H9' : marks_ok (mkDec (rd_random d) (rd_operand d) (rd_wait d) (rd_result d) (rd_cases d) (set_cat_dest (rd_cats d) i tgt) (rd_default d) (rd_noresp d))
+                         (sw_upd_cat (uuid_is (cc_uuid c)) (fun x => cat_set_dest x d') r)).
+  { eapply marks_same; [| | | |exact H9].
+    - cbn. apply set_cat_dest_fst.
+    - apply sw_upd_cat_cats_uuid. reflexivity.
+    - apply sw_upd_cat_names.
+    - apply sw_upd_cat_auto. }
   constructor; cbn; rewrite ?E1, ?E2, ?E3, ?E4, ?E5, ?sw_cases_upd_cat, ?Euu; try assumption.
   unfold set_cat_dest. rewrite Ei. apply Forall2_update; [exact H5|]. destruct Hc as [Hn _]. split; [exact Hn|exact Hd].
 Qed.
@@ -271,7 +357,9 @@ Lemma dec_sim_set_operand d r v :
   dec_sim phi uu (mkDec (rd_random d) (new_operand (rd_operand d) v) (rd_wait d) (rd_result d) (rd_cases d) (rd_cats d) (rd_default d) (rd_noresp d))
           (sw_set_operand r v).
 Proof.
-  intros [H1 H2 H3 H4 H5 H6 H7 H8]. destruct v as [|c v]; cbn; constructor; cbn; try assumption. reflexivity.
+  intros [H1 H2 H3 H4 H5 H6 H7 H8 H9]. destruct v as [|c v]; cbn; constructor; cbn; try assumption; try reflexivity.
+  - destruct H9 as [M1 M2 M3]. constructor; assumption.
+  - destruct H9 as [M1 M2 M3]. constructor; assumption.
 Qed.
 
 Lemma new_case_full n ty args cat k n' :
@@ -279,12 +367,215 @@ Lemma new_case_full n ty args cat k n' :
   ck_type k = ty /\ ck_args k = (if nab ty then [] else args) /\ ck_cat k = cat /\ ck_uuid k = fresh n /\ n' = S n.
 Proof. unfold new_case, nab. destruct (negb (memb ty known_tests)); [discriminate|]. intros H. injection H as <- <-. auto. Qed.
 
-Lemma dec_sim_add_case n U d r operand ty value args tgt d' r' n' :
-  dec_sim phi uu d r -> plain_dec d -> SwOK fresh n U r -> dest_sim phi uu tgt d' ->
-  sw_add_choice fresh n r operand (or_default ty s_has_any_word) args [] d' false = Ok (r', n') ->
-  dec_sim phi uu (add_case nab d operand ty value args [] tgt) r' /\ plain_dec (add_case nab d operand ty value args [] tgt).
+(* the names generate_category_name can return *)
+Lemma alt_loop_shape fuel names nm0 nm : alt_loop fuel names nm0 = Ok nm -> exists k, nm = nm0 ++ alts k.
 Proof.
-  intros Hsim Hplain Hok Hd. unfold sw_add_choice, add_case.
+  revert nm0. induction fuel as [|f IH]; intros nm0; cbn; [discriminate|].
+  destruct (memb nm0 names).
+  - intros H. destruct (IH _ H) as (k & ->). exists (S k). cbn [alts]. rewrite app_assoc. reflexivity.
+  - intros H. injection H as <-. exists 0. cbn. rewrite app_nil_r. reflexivity.
+Qed.
+
+Lemma gen_cat_name_shape names args nm : gen_cat_name names args = Ok nm -> exists k, nm = gen_base args ++ alts k.
+Proof. unfold gen_cat_name. apply alt_loop_shape. Qed.
+
+(* looking a category up by an explicit name: when no category the sheet leaves unnamed carries that name, the
+   reference finds it among the named categories exactly where the compiler finds it *)
+Definition no_wild_named (nm : str) (cats : list (cname * dest)) (ccats : list ccat) : Prop :=
+  forall j x c, nth_error cats j = Some x -> nth_error ccats j = Some c -> fst x = CWild -> name_is nm c = false.
+
+Lemma no_wild_named_tl nm x c cats ccats : no_wild_named nm (x :: cats) (c :: ccats) -> no_wild_named nm cats ccats.
+Proof. intros H j y c' Hy Hc'. exact (H (S j) y c' Hy Hc'). Qed.
+
+Lemma find_named nm (f : ccat -> ccat) cats ccats : forall i,
+  Forall2 (cat_sim phi uu) cats ccats -> no_wild_named nm cats ccats ->
+  match find_cat cats nm i with
+  | Some ci => exists j c, ci = i + j /\ j < length cats /\ nth_error ccats j = Some c
+                           /\ find (name_is nm) ccats = Some c /\ existsb (name_is nm) ccats = true
+                           /\ upd_first (name_is nm) f ccats = RowSem.update ccats j (f c)
+  | None => find (name_is nm) ccats = None /\ existsb (name_is nm) ccats = false
+  end.
+Proof.
+  intros i H Hw. revert i. induction H as [|x c l l' Hxc _ IH]; intros i; cbn [find_cat find existsb upd_first]; [auto|].
+  destruct x as [cn dd].
+  assert (E : cname_is cn nm = name_is nm c).
+  { destruct cn as [t|]; cbn.
+    - destruct Hxc as [Hn _]. cbn in Hn. subst t. reflexivity.
+    - symmetry. exact (Hw 0 (CWild, dd) c eq_refl eq_refl eq_refl). }
+  rewrite <- E. destruct (cname_is cn nm).
+  - exists 0, c. cbn. repeat split; try reflexivity; lia.
+  - specialize (IH (no_wild_named_tl _ _ _ _ _ Hw) (S i)). destruct (find_cat l nm (S i)) as [ci|].
+    + destruct IH as (j & c' & -> & Hj & Hn & Hf & He & Hu). exists (S j), c'. cbn. rewrite Hu. repeat split; auto; lia.
+    + exact IH.
+Qed.
+
+Lemma find_app_none {X} (p : X -> bool) l l' : find p l = None -> find p (l ++ l') = find p l'.
+Proof. induction l as [|a r IH]; cbn; [reflexivity|]. destruct (p a); [discriminate|exact IH]. Qed.
+Lemma find_app_some {X} (p : X -> bool) l l' x : find p l = Some x -> find p (l ++ l') = Some x.
+Proof. induction l as [|a r IH]; cbn; [discriminate|]. destruct (p a); [auto|exact IH]. Qed.
+
+Lemma map_uuid_update l i c d' : nth_error l i = Some c -> map cc_uuid (RowSem.update l i (cat_set_dest c d')) = map cc_uuid l.
+Proof. intros H. eapply map_update_same; [exact H|reflexivity]. Qed.
+
+(* the premise on the name, as long as the tree has the defect category-name-clash: an unnamed category gets one of the
+   invented names of G, an explicit name is outside G *)
+Definition name_ok (name : str) (args : list (option str)) : Prop :=
+  if explicit_names_claimed then True
+  else match name with [] => forall k, gname (gen_base args ++ alts k) | _ => ~ gname name /\ name <> s_NoResponse end.
+
+(* ---------------------------------------------------------------- an explicit name claims its name (the repaired tree) *)
+Lemma find_first {X} (p : X -> bool) l c : find p l = Some c ->
+  exists j, nth_error l j = Some c /\ p c = true /\ forall i x, i < j -> nth_error l i = Some x -> p x = false.
+Proof.
+  induction l as [|a r IH]; cbn; [discriminate|]. destruct (p a) eqn:Ea.
+  - intros H. injection H as <-. exists 0. split; [reflexivity|]. split; [exact Ea|]. intros i x Hi. lia.
+  - intros H. destruct (IH H) as (j & Hj & Hp & Hlt). exists (S j). split; [exact Hj|]. split; [exact Hp|].
+    intros [|i] x Hi Hx; cbn in Hx; [injection Hx as <-; exact Ea|]. apply (Hlt i x); [lia|exact Hx].
+Qed.
+
+Lemma find_none_all {X} (p : X -> bool) l : find p l = None -> forall x, In x l -> p x = false.
+Proof.
+  induction l as [|a r IH]; cbn; [intros _ x []|]. destruct (p a) eqn:Ea; [discriminate|].
+  intros H x [<-|Hx]; [exact Ea|apply IH; assumption].
+Qed.
+
+Lemma NoDup_map_nth {X Y} (h : X -> Y) (l : list X) i j x y :
+  NoDup (map h l) -> nth_error l i = Some x -> nth_error l j = Some y -> h x = h y -> i = j.
+Proof.
+  revert i j. induction l as [|a r IH]; intros [|i] [|j]; cbn; try discriminate; intros Hnd Hx Hy E; inversion Hnd as [|? ? Ha Hr]; subst.
+  - reflexivity.
+  - injection Hx as ->. exfalso. apply Ha. rewrite E. apply in_map. eapply nth_error_In, Hy.
+  - injection Hy as ->. exfalso. apply Ha. rewrite <- E. apply in_map. eapply nth_error_In, Hx.
+  - f_equal. eapply IH; eauto.
+Qed.
+
+(* find over get_categories(): a hit that is neither the default nor the No Response category is an ordinary category *)
+Lemma find_all_in_cats r p c :
+  find p (sw_all_cats r) = Some c ->
+  str_eqb (cc_uuid c) (cc_uuid (sw_default r)) || existsb (uuid_is (cc_uuid c)) (wait_cats (sw_wait r)) = false ->
+  find p (sw_cats r) = Some c.
+Proof.
+  unfold sw_all_cats. intros Hf Hu. destruct (find p (sw_cats r)) as [c'|] eqn:E.
+  - rewrite (find_app_some _ _ _ _ E) in Hf. exact Hf.
+  - rewrite (find_app_none _ _ _ E) in Hf. exfalso. apply orb_false_iff in Hu as [U1 U2]. cbn [find] in Hf.
+    destruct (p (sw_default r)); [injection Hf as <-; rewrite str_eqb_refl in U1; discriminate|].
+    destruct (sw_wait r) as [| |t cw]; cbn in Hf; try discriminate. destruct (p cw); [|discriminate]. injection Hf as <-.
+    cbn in U2. unfold uuid_is in U2. rewrite str_eqb_refl in U2. discriminate.
+Qed.
+
+(* replacing one name by a fresh one keeps the names distinct *)
+Lemma NoDup_rename nm' : forall (l : list ccat) i y rest, nth_error l i = Some y -> NoDup (map cc_name (l ++ rest)) -> memb nm' (map cc_name (l ++ rest)) = false ->
+  NoDup (map cc_name (RowSem.update l i (cat_set_name y nm') ++ rest)).
+Proof.
+  induction l as [|a l IHl]; intros [|i] y rest; cbn; try discriminate.
+  - intros E Hnd' Hm. injection E as ->. inversion Hnd' as [|? ? Ha Hr]; subst. constructor; [|exact Hr].
+    intros Hin. unfold memb in Hm. cbn in Hm. apply orb_false_iff in Hm as [_ Hm].
+    assert (Hm' : existsb (str_eqb nm') (map cc_name (l ++ rest)) = true) by (apply existsb_exists; exists nm'; split; [exact Hin|apply str_eqb_refl]).
+    congruence.
+  - intros E Hnd' Hm. inversion Hnd' as [|? ? Ha Hr]; subst. unfold memb in Hm. cbn in Hm. apply orb_false_iff in Hm as [Hm1 Hm2].
+    constructor; [|apply IHl; assumption].
+    intros Hin. rewrite map_app in Hin, Ha. apply in_app_or in Hin as [Hin|Hin].
+    + rewrite in_map_iff in Hin. destruct Hin as (z & Ez & Hz). apply In_nth_error in Hz as (i0 & Hi0).
+      destruct (Nat.eq_dec i0 i) as [->|Hne].
+      * rewrite (update_nth_same _ _ _ _ E) in Hi0. injection Hi0 as <-. cbn in Ez. rewrite Ez, str_eqb_refl in Hm1. discriminate.
+      * rewrite update_nth_other in Hi0 by exact Hne. apply Ha. apply in_or_app. left. rewrite <- Ez. apply in_map. eapply nth_error_In, Hi0.
+    + apply Ha. apply in_or_app. right. exact Hin.
+Qed.
+
+Lemma dec_sim_rename d r j c nm' :
+  explicit_names_claimed = true -> dec_sim phi uu d r -> nth_error (sw_cats r) j = Some c ->
+  (exists x, nth_error (rd_cats d) j = Some x /\ fst x = CWild) -> memb nm' (map cc_name (sw_all_cats r)) = false ->
+  dec_sim phi uu d (sw_upd_cat (uuid_is (cc_uuid c)) (fun x => cat_set_name x nm') r)
+  /\ sw_cats (sw_upd_cat (uuid_is (cc_uuid c)) (fun x => cat_set_name x nm') r) = RowSem.update (sw_cats r) j (cat_set_name c nm')
+  /\ sw_default (sw_upd_cat (uuid_is (cc_uuid c)) (fun x => cat_set_name x nm') r) = sw_default r
+  /\ sw_wait (sw_upd_cat (uuid_is (cc_uuid c)) (fun x => cat_set_name x nm') r) = sw_wait r.
+Proof.
+  intros Eflag [H1 H2 H3 H4 H5 H6 H7 H8 H9] Hc (x & Hx & Hwild) Hfresh.
+  assert (Hall : nth_error (sw_all_cats r) j = Some c) by (apply nth_error_app_l, Hc).
+  assert (Hex : existsb (uuid_is (cc_uuid c)) (sw_cats r) = true) by (eapply existsb_nth; [exact Hc|unfold uuid_is; apply str_eqb_refl]).
+  assert (Hnd : NoDup (map cc_uuid (sw_cats r))) by (unfold sw_all_cats in H8; rewrite map_app in H8; eapply NoDup_app_l, H8).
+  assert (Ecats : sw_cats (sw_upd_cat (uuid_is (cc_uuid c)) (fun x => cat_set_name x nm') r) = RowSem.update (sw_cats r) j (cat_set_name c nm')).
+  { unfold sw_upd_cat. rewrite Hex. cbn. unfold uuid_is. apply (upd_first_nth cc_uuid (fun x => cat_set_name x nm') (sw_cats r) j c Hnd Hc). }
+  assert (Erest : sw_default (sw_upd_cat (uuid_is (cc_uuid c)) (fun x => cat_set_name x nm') r) = sw_default r
+                  /\ sw_wait (sw_upd_cat (uuid_is (cc_uuid c)) (fun x => cat_set_name x nm') r) = sw_wait r
+                  /\ sw_operand (sw_upd_cat (uuid_is (cc_uuid c)) (fun x => cat_set_name x nm') r) = sw_operand r
+                  /\ sw_result (sw_upd_cat (uuid_is (cc_uuid c)) (fun x => cat_set_name x nm') r) = sw_result r)
+    by (unfold sw_upd_cat; rewrite Hex; cbn; auto).
+  destruct Erest as (E2 & E3 & E4 & E5).
+  assert (Euu : map cc_uuid (sw_all_cats (sw_upd_cat (uuid_is (cc_uuid c)) (fun x => cat_set_name x nm') r)) = map cc_uuid (sw_all_cats r)).
+  { rewrite sw_all_cats_upd_cat. apply upd_first_map. reflexivity. }
+  split; [|auto]. constructor; rewrite ?Ecats, ?E2, ?E3, ?E4, ?E5, ?sw_cases_upd_cat, ?Euu; try assumption.
+  - (* the categories: only the name of an unnamed one changes *)
+    replace (rd_cats d) with (RowSem.update (rd_cats d) j x) by (clear - Hx; revert j Hx; induction (rd_cats d) as [|a l IH]; intros [|j]; cbn; try discriminate; [intros E; injection E as ->; reflexivity|intros E; rewrite (IH j E); reflexivity]).
+    apply Forall2_update; [exact H5|]. destruct (Forall2_nth _ _ _ _ _ H5 Hx) as (c' & Hc' & [_ Hd']). assert (c' = c) by congruence. subst c'.
+    split; [rewrite Hwild; unfold name_sim; rewrite Eflag; exact I|exact Hd'].
+  - (* marks and names *)
+    destruct H9 as [M1 M2 M3]. constructor.
+    + rewrite Ecats, sw_upd_cat_auto. eapply marks_Forall2_same; [reflexivity| |exact M1]. eapply map_update_same; [exact Hc|reflexivity].
+    + rewrite sw_upd_cat_auto, Ecats. erewrite map_update_same; [exact M2|exact Hc|reflexivity].
+    + intros _. specialize (M3 Eflag). unfold sw_all_cats in *. rewrite Ecats, E2, E3.
+      apply NoDup_rename; assumption.
+Qed.
+
+Lemma claim_spec d r nm rc :
+  explicit_names_claimed = true -> dec_sim phi uu d r -> plain_dec d -> nm <> [] -> sw_claim r nm = Ok rc ->
+  dec_sim phi uu d rc /\ sw_cases rc = sw_cases r /\ map cc_uuid (sw_all_cats rc) = map cc_uuid (sw_all_cats r)
+  /\ no_wild_named nm (rd_cats d) (sw_cats rc)
+  /\ (find (name_is nm) (sw_cats rc) = None -> find (name_is nm) (sw_all_cats rc) = None).
+Proof.
+  intros Eflag Hsim (Hpc & Hpd & Hpn) Hne. unfold sw_claim.
+  pose proof (mk_names _ _ (ds_marks _ _ _ _ Hsim) Eflag) as Hnames.
+  pose proof (mk_marks _ _ (ds_marks _ _ _ _ Hsim)) as Hmarks.
+  pose proof (ds_cats _ _ _ _ Hsim) as H5.
+  destruct (find (name_is nm) (sw_all_cats r)) as [c|] eqn:Ef.
+  2:{ (* no category has that name *)
+      intros H. injection H as <-. split; [exact Hsim|]. split; [reflexivity|]. split; [reflexivity|]. split; [|intros _; exact Ef].
+      intros j x c Hx Hc _. apply (find_none_all _ _ Ef). unfold sw_all_cats. apply in_or_app. left. eapply nth_error_In, Hc. }
+  destruct (str_eqb (cc_uuid c) (cc_uuid (sw_default r)) || existsb (uuid_is (cc_uuid c)) (wait_cats (sw_wait r))) eqn:Eu; [discriminate|].
+  pose proof (find_all_in_cats r _ c Ef Eu) as Efc.
+  destruct (find_first _ _ _ Efc) as (j & Hj & Hpj & Hbefore).
+  assert (Hjall : nth_error (sw_all_cats r) j = Some c) by (apply nth_error_app_l, Hj).
+  assert (Huniq : forall i c', nth_error (sw_all_cats r) i = Some c' -> name_is nm c' = true -> i = j).
+  { intros i c' Hi Hn. eapply (NoDup_map_nth cc_name (sw_all_cats r)); eauto. unfold name_is in *. apply str_eqb_eq in Hn, Hpj. congruence. }
+  assert (Hjlt : j < length (rd_cats d)) by (rewrite (Forall2_length' _ _ _ H5); apply nth_error_Some; congruence).
+  destruct (nth_error (rd_cats d) j) as [x|] eqn:Ex; [|apply nth_error_None in Ex; lia].
+  destruct (Forall2_nth _ _ _ _ _ Hmarks Ex) as (c' & Hc' & Hm). assert (c' = c) by congruence. subst c'.
+  destruct (memb (cc_uuid c) (sw_auto r)) eqn:Eauto.
+  - (* the category carries an invented name: it makes way *)
+    destruct (alt_loop _ _ (nm ++ s_alt)) as [nm'|e] eqn:Ea; [|discriminate]. intros H. injection H as <-.
+    apply alt_loop_fresh in Ea.
+    assert (Hwild : fst x = CWild) by (destruct (fst x); [discriminate|reflexivity]).
+    destruct (dec_sim_rename d r j c nm' Eflag Hsim Hj ltac:(exists x; auto) Ea) as (Hsim' & Ec & Ed & Ew).
+    split; [exact Hsim'|]. split; [apply sw_cases_upd_cat|]. split; [rewrite sw_all_cats_upd_cat; apply upd_first_map; reflexivity|].
+    assert (Hnone : forall i c', nth_error (sw_all_cats (sw_upd_cat (uuid_is (cc_uuid c)) (fun y => cat_set_name y nm') r)) i = Some c' -> name_is nm c' = false).
+    { intros i c' Hi. unfold sw_all_cats in Hi. rewrite Ec, Ed, Ew in Hi. destruct (Nat.eq_dec i j) as [->|Hij].
+      - rewrite nth_error_app1 in Hi by (rewrite update_length; apply nth_error_Some; congruence).
+        rewrite (update_nth_same _ _ _ _ Hj) in Hi. injection Hi as <-. unfold name_is. cbn. apply str_eqb_neq. intros E.
+        unfold memb in Ea. assert (existsb (str_eqb nm') (map cc_name (sw_all_cats r)) = true); [|congruence].
+        apply existsb_exists. exists nm. split; [|rewrite E; apply str_eqb_refl]. unfold name_is in Hpj. apply str_eqb_eq in Hpj. rewrite <- Hpj. apply in_map. eapply nth_error_In, Hjall.
+      - assert (Hi' : nth_error (sw_all_cats r) i = Some c').
+        { unfold sw_all_cats. destruct (Nat.lt_ge_cases i (length (sw_cats r))) as [Hlt|Hge].
+          - rewrite nth_error_app1 in Hi by (rewrite update_length; exact Hlt). rewrite update_nth_other in Hi by exact Hij. rewrite nth_error_app1 by exact Hlt. exact Hi.
+          - rewrite nth_error_app2 in Hi by (rewrite update_length; exact Hge). rewrite update_length in Hi. rewrite nth_error_app2 by exact Hge. exact Hi. }
+        destruct (name_is nm c') eqn:En; [|reflexivity]. exfalso. apply Hij. eapply Huniq; eauto. }
+    split.
+    + intros i y c' _ Hc'' _. apply (Hnone i c'). unfold sw_all_cats. apply nth_error_app_l. exact Hc''.
+    + intros _. destruct (find (name_is nm) (sw_all_cats (sw_upd_cat (uuid_is (cc_uuid c)) (fun y => cat_set_name y nm') r))) as [c'|] eqn:Ef'; [|reflexivity]. exfalso.
+      destruct (find_first _ _ _ Ef') as (i & Hi & Hp & _). rewrite (Hnone i c' Hi) in Hp. discriminate.
+  - (* the category was named so by the sheet: it is the one meant *)
+    intros H. injection H as <-. split; [exact Hsim|]. split; [reflexivity|]. split; [reflexivity|]. split.
+    + intros i y c' Hy Hc'' Hw. destruct (name_is nm c') eqn:En; [|reflexivity]. exfalso.
+      assert (i = j) by (eapply Huniq; [apply nth_error_app_l; exact Hc''|exact En]). subst i.
+      assert (y = x) by congruence. subst y. rewrite Hw in Hm. discriminate.
+    + intros Hnone. rewrite Efc in Hnone. discriminate.
+Qed.
+
+Lemma dec_sim_add_case n U d r operand ty value args name tgt d' r' n' :
+  dec_sim phi uu d r -> plain_dec d -> SwOK fresh n U r -> dest_sim phi uu tgt d' -> name_ok name args ->
+  sw_add_choice fresh n r operand (or_default ty s_has_any_word) args name d' false = Ok (r', n') ->
+  dec_sim phi uu (add_case nab d operand ty value args name tgt) r' /\ plain_dec (add_case nab d operand ty value args name tgt).
+Proof.
+  intros Hsim Hplain Hok Hd Hname. unfold sw_add_choice, add_case.
   pose proof (dec_sim_set_operand d r operand Hsim) as Hsim1.
   pose proof (SwOK_set_operand fresh n U r operand Hok) as Hok1.
   set (d1 := mkDec (rd_random d) (new_operand (rd_operand d) operand) (rd_wait d) (rd_result d) (rd_cases d) (rd_cats d) (rd_default d) (rd_noresp d)) in *.
@@ -292,7 +583,7 @@ Proof.
   set (r1 := sw_set_operand r operand) in *. clearbody r1. clear Hsim Hok.
   set (ty1 := or_default ty s_has_any_word).
   change (match ty with [] => s_has_any_word | _ :: _ => ty end) with ty1.
-  change (rd_random d1) with (rd_random d). change (rd_cases d1) with (rd_cases d).
+  change (rd_random d1) with (rd_random d). change (rd_cases d1) with (rd_cases d). change (rd_cats d1) with (rd_cats d).
   pose proof (find_Forall2 (case_sim (map cc_uuid (sw_all_cats r1)))
                 (fun k => str_eqb (fst (fst k)) ty1 && ostr_list_eqb (snd (fst k)) args)
                 (fun k => str_eqb (ck_type k) ty1 && ostr_list_eqb (ck_args k) args)
@@ -301,58 +592,309 @@ Proof.
   match type of Hfind with (?A -> _) => assert (Hpq : A) end.
   { intros x y (E1 & E2 & _). rewrite E1, E2. reflexivity. }
   specialize (Hfind Hpq). clear Hpq.
+  destruct Hplain as (Hpc & Hpd & Hpn).
   destruct (find _ (rd_cases d)) as [[[ty0 a0] ci]|] eqn:Ef1; destruct (find _ (sw_cases r1)) as [k|] eqn:Ef2; try contradiction.
   - (* the case exists on both sides: its category is re-targeted *)
     destruct Hfind as (_ & _ & Hnth). cbn in Hnth.
     destruct (existsb _ (sw_all_cats r1)); [|discriminate]. intros H. injection H as <- <-.
     apply find_some in Ef1 as [Hin _].
     assert (Hci : ci < length (rd_cats d)).
-    { unfold plain_dec in Hplain. rewrite Forall_forall in Hplain. apply (Hplain _ Hin). }
+    { rewrite Forall_forall in Hpc. apply (Hpc _ Hin). }
     split; [apply (dec_sim_set_cat phi uu d1 r1 ci (ck_cat k) tgt d' Hsim1 Hci Hnth Hd)|].
-    unfold plain_dec in *. cbn [rd_cases rd_cats d1]. rewrite set_cat_dest_length. exact Hplain.
-  - (* a new case with a new, unnamed category *)
-    cbn [gen_cat_name]. destruct (gen_cat_name _ args) as [nm|e] eqn:Eg; [|discriminate].
-    unfold gen_cat_name in Eg. apply alt_loop_fresh in Eg. rewrite (find_name_none nm _ Eg).
-    destruct (new_cat fresh n nm d') as [[c n1]|e] eqn:Ec; [|discriminate].
-    destruct (new_case fresh n1 ty1 args (cc_uuid c)) as [[k n2]|e] eqn:Ek; [|discriminate].
-    intros H. injection H as <- <-.
-    apply (new_cat_spec fresh fresh_inj) in Ec as (-> & ->). apply new_case_full in Ek as (K1 & K2 & K3 & K4 & ->).
-    destruct Hsim1 as [H1 H2 H3 H4 H5 H6 H7 H8].
-    assert (Hlen := Forall2_length' _ _ _ H5). change (rd_cats d1) with (rd_cats d) in Hlen.
-    assert (Huu : map cc_uuid (sw_all_cats (sw_add_case (sw_add_cat r1 (mkCCat (fresh n) nm (mkCExit (fresh (S n)) d'))) k))
-                  = map cc_uuid (sw_cats r1) ++ fresh n :: map cc_uuid (sw_default r1 :: wait_cats (sw_wait r1))).
-    { unfold sw_add_case, sw_add_cat, sw_all_cats. cbn. rewrite <- app_assoc. rewrite !map_app. reflexivity. }
-    split.
-    + constructor; cbn [rd_random rd_operand rd_wait rd_result rd_cases rd_cats rd_default rd_noresp
-                         sw_operand sw_result sw_wait sw_cases sw_cats sw_default sw_add_case sw_add_cat].
-      * exact H1.
-      * exact H2.
-      * exact H3.
-      * exact H4.
-      * apply Forall2_app_one; [exact H5|]. split; [exact I|exact Hd].
-      * exact H6.
-      * rewrite Huu. apply Forall2_app_one.
-        -- (* the old cases keep their categories *)
-           unfold plain_dec in Hplain. cbn [rd_cases rd_cats d1] in H7.
-           assert (G : forall l l', Forall2 (case_sim (map cc_uuid (sw_all_cats r1))) l l' -> Forall (fun x => snd x < length (rd_cats d)) l ->
-                              Forall2 (case_sim (map cc_uuid (sw_cats r1) ++ fresh n :: map cc_uuid (sw_default r1 :: wait_cats (sw_wait r1)))) l l').
-           { intros l l' F. induction F as [|x y l l' Hxy _ IH]; intros Hall; [constructor|].
-             inversion Hall as [|? ? Hx Hr]; subst. constructor; [|apply IH, Hr].
-             destruct Hxy as (E1 & E2 & E3). split; [exact E1|]. split; [exact E2|].
-             unfold sw_all_cats in E3. rewrite map_app in E3. rewrite nth_error_app1 in E3 by (rewrite map_length; lia).
-             rewrite nth_error_app1 by (rewrite map_length; lia). exact E3. }
-           apply G; [exact H7|exact Hplain].
-        -- split; [cbn; symmetry; exact K1|]. split; [cbn; symmetry; exact K2|]. cbn [snd]. change (rd_cats d1) with (rd_cats d).
-           rewrite nth_error_app2 by (rewrite map_length; lia). rewrite map_length, Hlen, Nat.sub_diag. cbn. rewrite K3. reflexivity.
-      * rewrite Huu. apply NoDup_insert; [unfold sw_all_cats in H8; rewrite map_app in H8; exact H8|].
-        destruct Hok1 as [[Hids _ _] _ _]. intros Hin.
-        assert (Hb : Forall (below fresh n) (map cc_uuid (sw_all_cats r1))).
-        { rewrite Forall_forall in *. intros u Hu. apply in_map_iff in Hu as (c0 & <- & Hc0). apply Hids.
-          apply in_flat_map. exists c0. split; [exact Hc0|left; reflexivity]. }
-        unfold sw_all_cats in Hb. rewrite map_app in Hb. exact (not_in_below fresh fresh_inj n n _ Hb (le_n _) Hin).
-    + unfold plain_dec in *. cbn [rd_cases rd_cats]. change (rd_cats d1) with (rd_cats d). change (rd_cases d1) with (rd_cases d).
-      apply Forall_app. split.
-      * eapply Forall_impl; [|exact Hplain]. intros x Hx. cbn beta in Hx. rewrite app_length. cbn. lia.
-      * constructor; [|constructor]. cbn. rewrite app_length. cbn. lia.
+    split; [|split; [exact Hpd|exact Hpn]]. cbn [rd_cases rd_cats d1]. rewrite set_cat_dest_length. exact Hpc.
+  - (* a new case.  The shared end: a NEW category cn/nm with the case, on a router rc that still simulates d1 *)
+    assert (Hnew : forall rc cn nm (g : bool), dec_sim phi uu d1 rc -> sw_cases rc = sw_cases r1 ->
+              map cc_uuid (sw_all_cats rc) = map cc_uuid (sw_all_cats r1) -> name_sim cn nm ->
+              g = match cn with CWild => true | CFixed _ => false end ->
+              (explicit_names_claimed = true -> memb nm (map cc_name (sw_all_cats rc)) = false) ->
+              match new_cat fresh n nm d' with
+              | Ok (c, n1) => match new_case fresh n1 ty1 args (cc_uuid c) with
+                              | Ok (k, n2) => Ok ((if g then sw_mark_auto (sw_add_case (sw_add_cat rc c) k) (cc_uuid c) else sw_add_case (sw_add_cat rc c) k), n2)
+                              | Err e => Err e end
+              | Err e => Err e end = Ok (r', n') ->
+              dec_sim phi uu (mkDec (rd_random d) (rd_operand d1) (rd_wait d1) (rd_result d1)
+                                    (rd_cases d ++ [(ty1, if nab ty1 then [] else args, length (rd_cats d))]) (rd_cats d ++ [(cn, tgt)])
+                                    (rd_default d1) (rd_noresp d1)) r'
+              /\ plain_dec (mkDec (rd_random d) (rd_operand d1) (rd_wait d1) (rd_result d1)
+                                  (rd_cases d ++ [(ty1, if nab ty1 then [] else args, length (rd_cats d))]) (rd_cats d ++ [(cn, tgt)])
+                                  (rd_default d1) (rd_noresp d1))).
+    { intros rc cn nm g [H1 H2 H3 H4 H5 H6 H7 H8 H9] Ecs Euc Hcn Hg Hfresh.
+      assert (Hlen := Forall2_length' _ _ _ H5). change (rd_cats d1) with (rd_cats d) in Hlen, H5.
+      change (rd_default d1) with (rd_default d) in H6. change (rd_cases d1) with (rd_cases d) in H7.
+      destruct (new_cat fresh n nm d') as [[c n1]|e] eqn:Ec; [|discriminate].
+      destruct (new_case fresh n1 ty1 args (cc_uuid c)) as [[k n2]|e] eqn:Ek; [|discriminate].
+      intros H. apply (new_cat_spec fresh fresh_inj) in Ec as (-> & ->). apply new_case_full in Ek as (K1 & K2 & K3 & K4 & ->).
+      set (cnew := mkCCat (fresh n) nm (mkCExit (fresh (S n)) d')) in *.
+      set (r2 := sw_add_case (sw_add_cat rc cnew) k) in *.
+      assert (Er' : r' = if g then sw_mark_auto r2 (fresh n) else r2) by (destruct g; injection H as <-; reflexivity).
+      assert (Hb : Forall (below fresh n) (map cc_uuid (sw_all_cats rc))).
+      { rewrite Euc. destruct Hok1 as [[Hids _ _] _ _]. rewrite Forall_forall in *. intros u Hu. apply in_map_iff in Hu as (c0 & <- & Hc0). apply Hids.
+        apply in_flat_map. exists c0. split; [exact Hc0|left; reflexivity]. }
+      assert (Hnotin : ~ In (fresh n) (map cc_uuid (sw_all_cats rc))) by (exact (not_in_below fresh fresh_inj n n _ Hb (le_n _))).
+      assert (Huu : map cc_uuid (sw_all_cats r2) = map cc_uuid (sw_cats rc) ++ fresh n :: map cc_uuid (sw_default rc :: wait_cats (sw_wait rc))).
+      { unfold r2, sw_add_case, sw_add_cat, sw_all_cats. cbn. rewrite <- app_assoc. rewrite !map_app. reflexivity. }
+      assert (Hfields : sw_operand r' = sw_operand rc /\ sw_result r' = sw_result rc /\ sw_wait r' = sw_wait rc /\ sw_cases r' = sw_cases rc ++ [k]
+                        /\ sw_cats r' = sw_cats rc ++ [cnew] /\ sw_default r' = sw_default rc /\ sw_all_cats r' = sw_all_cats r2
+                        /\ sw_auto r' = if g then fresh n :: sw_auto rc else sw_auto rc).
+      { rewrite Er'. destruct g; cbn; auto 10. }
+      destruct Hfields as (F1 & F2 & F3 & F4 & F5 & F6 & F7 & F8).
+      split.
+      + constructor; rewrite ?F1, ?F2, ?F3, ?F4, ?F5, ?F6, ?F7; cbn [rd_random rd_operand rd_wait rd_result rd_cases rd_cats rd_default rd_noresp].
+        * exact H1.
+        * exact H2.
+        * exact H3.
+        * exact H4.
+        * apply Forall2_app_one; [exact H5|]. split; [exact Hcn|exact Hd].
+        * exact H6.
+        * rewrite Huu. apply Forall2_app_one.
+          -- assert (G0 : forall l l', Forall2 (case_sim (map cc_uuid (sw_all_cats rc))) l l' -> Forall (fun x => snd x < length (rd_cats d)) l ->
+                                Forall2 (case_sim (map cc_uuid (sw_cats rc) ++ fresh n :: map cc_uuid (sw_default rc :: wait_cats (sw_wait rc)))) l l').
+             { intros l l' F. induction F as [|x y l l' Hxy _ IH]; intros Hall; [constructor|].
+               inversion Hall as [|? ? Hx Hr]; subst. constructor; [|apply IH, Hr].
+               destruct Hxy as (E1 & E2 & E3). split; [exact E1|]. split; [exact E2|].
+               unfold sw_all_cats in E3. rewrite map_app in E3. rewrite nth_error_app1 in E3 by (rewrite map_length; lia).
+               rewrite nth_error_app1 by (rewrite map_length; lia). exact E3. }
+             apply G0; [exact H7|exact Hpc].
+          -- split; [cbn; symmetry; exact K1|]. split; [cbn; symmetry; exact K2|]. cbn [snd].
+             rewrite nth_error_app2 by (rewrite map_length; lia). rewrite map_length, Hlen, Nat.sub_diag. cbn. rewrite K3. reflexivity.
+        * rewrite Huu. apply NoDup_insert; [unfold sw_all_cats in H8; rewrite map_app in H8; exact H8|].
+          unfold sw_all_cats in Hnotin. rewrite map_app in Hnotin. exact Hnotin.
+        * (* marks: the new category is marked exactly when its name was invented *)
+          destruct H9 as [M1 M2 M3]. constructor; rewrite ?F5, ?F7, ?F8.
+          -- apply Forall2_app_one.
+             ++ destruct g; [|exact M1]. eapply Forall2_impl; [|exact (Forall2_and_in _ _ _ M1)].
+                intros x c0 [Hm Hin0]. cbn [memb existsb]. unfold memb in *. cbn. rewrite Hm.
+                assert (En : str_eqb (cc_uuid c0) (fresh n) = false).
+                { apply str_eqb_neq. intros E. apply Hnotin. rewrite <- E. unfold sw_all_cats. rewrite map_app. apply in_or_app. left. apply in_map. exact Hin0. }
+                rewrite En. reflexivity.
+             ++ cbn [fst cc_uuid cnew]. subst g. destruct cn as [s0|]; unfold memb; cbn.
+                ** assert (Em : existsb (str_eqb (fresh n)) (sw_auto rc) = false); [|exact Em].
+                   apply not_true_is_false. intros Hex. apply existsb_exists in Hex as (u & Hu & Eu). apply str_eqb_eq in Eu. subst u.
+                   apply Hnotin. unfold sw_all_cats. rewrite map_app. apply in_or_app. left. apply M2, Hu.
+                ** rewrite str_eqb_refl. reflexivity.
+          -- rewrite map_app. cbn [map cc_uuid cnew]. destruct g.
+             ++ intros u [<-|Hu]; [apply in_or_app; right; left; reflexivity|apply in_or_app; left; apply M2, Hu].
+             ++ intros u Hu. apply in_or_app. left. apply M2, Hu.
+          -- intros Eflag. specialize (M3 Eflag). specialize (Hfresh Eflag).
+             unfold r2, sw_add_case, sw_add_cat, sw_all_cats in *. cbn [sw_cats sw_default sw_wait]. rewrite <- app_assoc. cbn [app].
+             rewrite map_app. cbn [map cc_name cnew]. rewrite map_app in M3, Hfresh. apply NoDup_insert; [exact M3|].
+             intros Hin. unfold memb in Hfresh. assert (existsb (str_eqb nm) (map cc_name (sw_cats rc) ++ map cc_name (sw_default rc :: wait_cats (sw_wait rc))) = true); [|congruence].
+             apply existsb_exists. exists nm. split; [exact Hin|apply str_eqb_refl].
+      + split; [|split; [exact Hpd|exact Hpn]]. cbn [rd_cases rd_cats].
+        apply Forall_app. split.
+        * eapply Forall_impl; [|exact Hpc]. intros x Hx. cbn beta in Hx. rewrite app_length. cbn. lia.
+        * constructor; [|constructor]. cbn. rewrite app_length. cbn. lia. }
+    (* the shared end: the category cn found at position j of a router rc *)
+    assert (Hreuse : forall rc nm j c, dec_sim phi uu d1 rc -> sw_cases rc = sw_cases r1 ->
+              map cc_uuid (sw_all_cats rc) = map cc_uuid (sw_all_cats r1) ->
+              j < length (rd_cats d) -> nth_error (sw_cats rc) j = Some c -> existsb (name_is nm) (sw_cats rc) = true ->
+              upd_first (name_is nm) (fun c => cat_set_dest c d') (sw_cats rc) = RowSem.update (sw_cats rc) j (cat_set_dest c d') ->
+              match new_case fresh n ty1 args (cc_uuid c) with
+              | Ok (k, n1) => Ok (sw_add_case (sw_upd_cat (name_is nm) (fun c => cat_set_dest c d') rc) k, n1)
+              | Err e => Err e end = Ok (r', n') ->
+              dec_sim phi uu (mkDec (rd_random d) (rd_operand d1) (rd_wait d1) (rd_result d1) (rd_cases d ++ [(ty1, if nab ty1 then [] else args, j)])
+                                    (set_cat_dest (rd_cats d) j tgt) (rd_default d1) (rd_noresp d1)) r'
+              /\ plain_dec (mkDec (rd_random d) (rd_operand d1) (rd_wait d1) (rd_result d1) (rd_cases d ++ [(ty1, if nab ty1 then [] else args, j)])
+                                  (set_cat_dest (rd_cats d) j tgt) (rd_default d1) (rd_noresp d1))).
+    { intros rc nm j c [H1 H2 H3 H4 H5 H6 H7 H8 H9] Ecs Euc Hj Hnj Hej Huj.
+      change (rd_cats d1) with (rd_cats d) in H5. change (rd_default d1) with (rd_default d) in H6. change (rd_cases d1) with (rd_cases d) in H7.
+      destruct (new_case fresh n ty1 args (cc_uuid c)) as [[k n1]|e] eqn:Ek; [|discriminate].
+      intros H. injection H as <- <-. apply new_case_full in Ek as (K1 & K2 & K3 & K4 & ->).
+      assert (Eupd : sw_upd_cat (name_is nm) (fun c => cat_set_dest c d') rc
+                     = mkSwitch (sw_operand rc) (sw_result rc) (sw_wait rc) (sw_cases rc) (RowSem.update (sw_cats rc) j (cat_set_dest c d')) (sw_default rc) (sw_auto rc)).
+      { unfold sw_upd_cat. rewrite Hej, Huj. reflexivity. }
+      rewrite Eupd.
+      assert (Huu : map cc_uuid (sw_all_cats (sw_add_case (mkSwitch (sw_operand rc) (sw_result rc) (sw_wait rc) (sw_cases rc)
+                                                                     (RowSem.update (sw_cats rc) j (cat_set_dest c d')) (sw_default rc) (sw_auto rc)) k))
+                    = map cc_uuid (sw_all_cats rc)).
+      { unfold sw_add_case, sw_all_cats. cbn. rewrite !map_app. rewrite (map_uuid_update _ _ _ _ Hnj). reflexivity. }
+      destruct (nth_error (rd_cats d) j) as [[cnj dj]|] eqn:Ej; [|apply nth_error_None in Ej; lia].
+      destruct (Forall2_nth _ _ _ _ _ H5 Ej) as (c' & Ec' & Hc'). rewrite Hnj in Ec'. injection Ec' as <-.
+      split.
+      - constructor; cbn [rd_random rd_operand rd_wait rd_result rd_cases rd_cats rd_default rd_noresp
+                           sw_operand sw_result sw_wait sw_cases sw_cats sw_default sw_add_case].
+        + exact H1.
+        + exact H2.
+        + exact H3.
+        + exact H4.
+        + unfold set_cat_dest. rewrite Ej. apply Forall2_update; [exact H5|]. destruct Hc' as [Hn' _]. split; [exact Hn'|exact Hd].
+        + exact H6.
+        + rewrite Huu. apply Forall2_app_one; [exact H7|].
+          split; [cbn; symmetry; exact K1|]. split; [cbn; symmetry; exact K2|]. cbn [snd].
+          unfold sw_all_cats. rewrite map_app. rewrite nth_error_app1 by (rewrite map_length, <- (Forall2_length' _ _ _ H5); exact Hj).
+          rewrite nth_error_map, Hnj. cbn. rewrite K3. reflexivity.
+        + rewrite Huu. exact H8.
+        + eapply marks_same; [| | | |exact H9].
+          * cbn. apply set_cat_dest_fst.
+          * cbn. eapply map_uuid_update; eauto.
+          * unfold sw_add_case, sw_all_cats. cbn. rewrite !map_app. f_equal. eapply map_update_same; [exact Hnj|reflexivity].
+          * reflexivity.
+      - split; [|split; [exact Hpd|exact Hpn]]. cbn [rd_cases rd_cats]. rewrite set_cat_dest_length.
+        apply Forall_app. split; [exact Hpc|]. constructor; [|constructor]. cbn. exact Hj. }
+    destruct name as [|c0 nm0].
+    + (* unnamed: a new category with an invented name *)
+      cbn [gen_cat_name negb andb]. rewrite andb_false_r.
+      destruct (gen_cat_name _ args) as [nm|e] eqn:Eg; [|discriminate].
+      pose proof (gen_cat_name_shape _ _ _ Eg) as (kk & Enm).
+      unfold gen_cat_name in Eg. apply alt_loop_fresh in Eg. rewrite (find_name_none nm _ Eg).
+      apply (Hnew r1 CWild nm true Hsim1 eq_refl eq_refl); [|reflexivity|intros _; exact Eg].
+      apply name_sim_wild. intros Eflag. unfold name_ok in Hname. rewrite Eflag in Hname. rewrite Enm. apply Hname.
+    + (* an explicit name *)
+      set (nm := c0 :: nm0) in *. cbn [negb]. rewrite andb_true_r.
+      pose proof (ds_cats _ _ _ _ Hsim1) as H5. change (rd_cats d1) with (rd_cats d) in H5.
+      destruct explicit_names_claimed eqn:Eflag.
+      * (* the repaired tree: the name is claimed first *)
+        destruct (sw_claim r1 nm) as [rc|e] eqn:Ecl; [|discriminate].
+        destruct (claim_spec d1 r1 nm rc Eflag Hsim1 Hplain1 ltac:(discriminate) Ecl) as (Hsc & Ecs & Euc & Hnw & Hrestc).
+        pose proof (find_named nm (fun c => cat_set_dest c d') (rd_cats d) (sw_cats rc) 0 (ds_cats _ _ _ _ Hsc) Hnw) as Hfn.
+        destruct (find_cat (rd_cats d) nm 0) as [ci|] eqn:Efc.
+        -- destruct Hfn as (j & c & -> & Hj & Hnj & Hfj & Hej & Huj). cbn [plus].
+           unfold sw_all_cats at 1. rewrite (find_app_some _ _ _ _ Hfj). apply (Hreuse rc nm j c Hsc Ecs Euc Hj Hnj Hej Huj).
+        -- destruct Hfn as [Hfn Hen]. rewrite (Hrestc Hfn).
+           apply (Hnew rc (CFixed nm) nm false Hsc Ecs Euc eq_refl eq_refl).
+           intros _. unfold memb. apply not_true_is_false. intros Hex. apply existsb_exists in Hex as (u & Hu & Eu). apply str_eqb_eq in Eu. subst u.
+           apply in_map_iff in Hu as (c & Ec & Hc). pose proof (find_none_all _ _ (Hrestc Hfn) c Hc) as Hx. unfold name_is in Hx. rewrite Ec, str_eqb_refl in Hx. discriminate.
+      * (* the tree with the defect: the premise keeps the name away from the invented ones *)
+        unfold name_ok in Hname. rewrite Eflag in Hname. destruct Hname as [Hg Hnr].
+        assert (Hnw : no_wild_named nm (rd_cats d) (sw_cats r1)).
+        { intros j x c Hx Hc Hw. destruct (Forall2_nth _ _ _ _ _ H5 Hx) as (c' & Hc' & [Hn' _]). assert (c' = c) by congruence. subst c'.
+          rewrite Hw in Hn'. cbn in Hn'. rewrite Eflag in Hn'. unfold name_is. apply str_eqb_neq. intros E. apply Hg. rewrite <- E. exact Hn'. }
+        pose proof (find_named nm (fun c => cat_set_dest c d') (rd_cats d) (sw_cats r1) 0 H5 Hnw) as Hfn.
+        destruct (find_cat (rd_cats d) nm 0) as [ci|] eqn:Efc.
+        -- destruct Hfn as (j & c & -> & Hj & Hnj & Hfj & Hej & Huj). cbn [plus].
+           unfold sw_all_cats at 1. rewrite (find_app_some _ _ _ _ Hfj). apply (Hreuse r1 nm j c Hsim1 eq_refl eq_refl Hj Hnj Hej Huj).
+        -- destruct Hfn as [Hfn _].
+           (* neither the default nor the No Response category carries the name *)
+           assert (Hrest : find (name_is nm) (sw_default r1 :: wait_cats (sw_wait r1)) = None).
+           { destruct Hsim1 as [H1 H2 H3 H4 _ H6 _ _ _]. cbn [find]. destruct H6 as [Hn6 _]. change (rd_default d1) with (rd_default d) in Hn6.
+             rewrite Hpd in Hn6. cbn in Hn6. rewrite Eflag in Hn6.
+             assert (E6 : name_is nm (sw_default r1) = false) by (unfold name_is; apply str_eqb_neq; intros E; apply Hg; rewrite <- E; exact Hn6).
+             rewrite E6. unfold wait_sim in H4. change (rd_wait d1) with (rd_wait d) in H4. change (rd_noresp d1) with (rd_noresp d) in H4.
+             destruct (sw_wait r1) as [| |t cw]; try reflexivity. cbn [wait_cats find].
+             destruct (rd_wait d); try contradiction. destruct H4 as (_ & x & Ex & [Hnx _]). rewrite Ex in Hpn. rewrite Hpn in Hnx. cbn in Hnx.
+             assert (E7 : name_is nm cw = false) by (unfold name_is; apply str_eqb_neq; intros E; apply Hnr; rewrite <- E, <- Hnx; reflexivity).
+             rewrite E7. reflexivity. }
+           unfold sw_all_cats at 1. rewrite (find_app_none _ _ _ Hfn), Hrest.
+           apply (Hnew r1 (CFixed nm) nm false Hsim1 eq_refl eq_refl eq_refl eq_refl). intros H. discriminate.
+Qed.
+
+(* ---------------------------------------------------------------- random splits: add_bucket against RandomRouter.add_choice *)
+Definition undec (a : N) (s : str) : N := fold_left (fun a c => (10 * a + (c - 48))%N) s a.
+
+Lemma dec_aux_undec f : forall n acc a, (N.to_nat n < f)%nat -> exists m, undec a (dec_aux f n acc) = undec (a * 10 ^ m + n)%N acc.
+Proof.
+  induction f as [|f IH]; intros n acc a Hf; [lia|]. cbn [dec_aux].
+  pose proof (N.div_mod n 10 ltac:(lia)) as Hdm. pose proof (N.mod_lt n 10 ltac:(lia)) as Hlt.
+  set (d := (n mod 10)%N) in *. set (q := (n / 10)%N) in *. clearbody d q. unfold undec in *.
+  destruct (N.eqb q 0) eqn:Eq.
+  - apply N.eqb_eq in Eq. exists 1%N. cbn [fold_left]. f_equal. rewrite Eq in Hdm. rewrite N.pow_1_r. lia.
+  - apply N.eqb_neq in Eq. destruct (IH q ((48 + d)%N :: acc) a) as (m & Hm); [lia|].
+    exists (N.succ m). rewrite Hm. cbn [fold_left]. f_equal. rewrite N.pow_succ_r'. lia.
+Qed.
+
+(* str(n) determines n *)
+Lemma dec_nat_inj a b : dec_nat a = dec_nat b -> a = b.
+Proof.
+  intros H. unfold dec_nat in H.
+  destruct (dec_aux_undec (S a) (N.of_nat a) [] 0%N ltac:(lia)) as (m1 & H1).
+  destruct (dec_aux_undec (S b) (N.of_nat b) [] 0%N ltac:(lia)) as (m2 & H2).
+  rewrite H in H1. rewrite H1 in H2. unfold undec in H2. cbn [fold_left] in H2. lia.
+Qed.
+
+Lemma number_from_app {X} (l l' : list X) i : number_from i (l ++ l') = number_from i l ++ number_from (i + length l) l'.
+Proof.
+  revert i. induction l as [|a r IH]; intros i; cbn; [rewrite Nat.add_0_r; reflexivity|].
+  rewrite IH. replace (S i + length r) with (i + S (length r)) by lia. reflexivity.
+Qed.
+
+Lemma number_from_update {X} (l : list X) i j x : number_from i (RowSem.update l j x) = RowSem.update (number_from i l) j (i + j, x).
+Proof.
+  revert i j. induction l as [|a r IH]; intros i [|j]; cbn; try reflexivity.
+  - rewrite Nat.add_0_r. reflexivity.
+  - rewrite IH. replace (S i + j) with (i + S j) by lia. reflexivity.
+Qed.
+
+Lemma number_from_len {X} (l : list X) i : length (number_from i l) = length l.
+Proof. revert i. induction l as [|a r IH]; intros i; cbn; [reflexivity|]. rewrite IH. reflexivity. Qed.
+
+Lemma number_from_nth' {X} (l : list X) i j x : nth_error l j = Some x -> nth_error (number_from i l) j = Some (i + j, x).
+Proof.
+  revert i j. induction l as [|a r IH]; intros i [|j]; cbn; try discriminate.
+  - intros E. injection E as ->. rewrite Nat.add_0_r. reflexivity.
+  - intros E. rewrite (IH (S i) j E). replace (S i + j) with (i + S j) by lia. reflexivity.
+Qed.
+
+(* looking a bucket up by an explicit name (a name that does not look like an invented one) *)
+Lemma find_named_b nm (f : ccat -> ccat) cats : forall ccats i,
+  Forall2 (bucket_sim phi uu) (number_from i cats) ccats -> ~ is_bucket_name nm ->
+  match find_cat cats nm i with
+  | Some ci => exists j c, ci = i + j /\ j < length cats /\ nth_error ccats j = Some c
+                           /\ existsb (name_is nm) ccats = true
+                           /\ upd_first (name_is nm) f ccats = RowSem.update ccats j (f c)
+  | None => existsb (name_is nm) ccats = false
+  end.
+Proof.
+  induction cats as [|x l IH]; intros ccats i H Hg; cbn [number_from] in H; inversion H as [|a c l0 l' Hxc Hl]; subst;
+    cbn [find_cat existsb upd_first]; [reflexivity|].
+  destruct x as [cn dd]. destruct Hxc as [Hn _]. cbn [fst snd] in Hn.
+  assert (E : cname_is cn nm = name_is nm c).
+  { unfold name_is. destruct cn as [t|]; cbn.
+    - destruct Hn as [-> _]. reflexivity.
+    - symmetry. apply str_eqb_neq. intros E. apply Hg. rewrite <- E, Hn. eexists. reflexivity. }
+  rewrite <- E. destruct (cname_is cn nm).
+  - exists 0, c. cbn. repeat split; try reflexivity; lia.
+  - specialize (IH l' (S i) Hl Hg). destruct (find_cat l nm (S i)) as [ci|].
+    + destruct IH as (j & c' & -> & Hj & Hnj & He & Hu). exists (S j), c'. cbn. rewrite Hu. repeat split; auto; lia.
+    + exact IH.
+Qed.
+
+Lemma rand_sim_add_bucket n U d r name tgt d' r' n' :
+  rand_sim phi uu d r -> CatsOK fresh n U (rr_cats r) -> dest_sim phi uu tgt d' -> ~ is_bucket_name name ->
+  rr_add_choice fresh n r name d' = Ok (r', n') -> rand_sim phi uu (add_bucket d name tgt) r'.
+Proof.
+  intros [R1 R2 R3 R4] Hok Hd Hname. unfold rr_add_choice, add_bucket.
+  assert (Hlen : length (rr_cats r) = length (rd_cats d)) by (rewrite <- (Forall2_length' _ _ _ R3); apply number_from_len).
+  (* a new bucket cn/nm at the end *)
+  assert (Hnew : forall cn nm, match cn with CFixed s => s = nm /\ ~ is_bucket_name s | CWild => nm = s_Bucket ++ dec_nat (length (rd_cats d) + 2) end ->
+            match new_cat fresh n nm d' with Ok (c, n1) => Ok (mkRandom (rr_result r) (rr_cats r ++ [c]), n1) | Err e => Err e end = Ok (r', n') ->
+            rand_sim phi uu (mkDec true (rd_operand d) (rd_wait d) (rd_result d) (rd_cases d) (rd_cats d ++ [(cn, tgt)]) (rd_default d) (rd_noresp d)) r').
+  { intros cn nm Hcn. destruct (new_cat fresh n nm d') as [[c n1]|e] eqn:Ec; [|discriminate]. intros H. injection H as <- <-.
+    apply (new_cat_spec fresh fresh_inj) in Ec as (-> & ->). constructor; cbn.
+    - reflexivity.
+    - exact R2.
+    - rewrite number_from_app. apply Forall2_app; [exact R3|]. cbn. constructor; [|constructor]. split; cbn [fst snd]; [|exact Hd].
+      destruct cn as [s|]; cbn; [destruct Hcn as [-> Hb]; auto|exact Hcn].
+    - rewrite map_app. cbn. apply NoDup_insert with (b := []); rewrite ?app_nil_r; [exact R4|].
+      destruct Hok as [Hids _ _]. intros Hin.
+      assert (Hb : Forall (below fresh n) (map cc_uuid (rr_cats r))).
+      { rewrite Forall_forall in *. intros u Hu. apply in_map_iff in Hu as (c0 & <- & Hc0). apply Hids.
+        apply in_flat_map. exists c0. split; [exact Hc0|left; reflexivity]. }
+      exact (not_in_below fresh fresh_inj n n _ Hb (le_n _) Hin). }
+  destruct name as [|c0 nm0].
+  - (* an unnamed bucket: "Bucket <len + 2>", which no bucket is called yet *)
+    assert (Hex : existsb (name_is (s_Bucket ++ dec_nat (length (rr_cats r) + 2))) (rr_cats r) = false).
+    { apply not_true_is_false. intros Hex. apply existsb_exists in Hex as (c & Hin & Hc). apply In_nth_error in Hin as (j & Hj).
+      assert (Hjl : j < length (rd_cats d)) by (rewrite <- Hlen; apply nth_error_Some; congruence).
+      destruct (nth_error (rd_cats d) j) as [x|] eqn:Ex; [|apply nth_error_None in Ex; lia].
+      pose proof (number_from_nth' _ 0 _ _ Ex) as Enx.
+      destruct (Forall2_nth _ _ _ _ _ R3 Enx) as (c' & Ec' & [Hn _]). rewrite Hj in Ec'. injection Ec' as <-. cbn [fst snd] in Hn.
+      unfold name_is in Hc. apply str_eqb_eq in Hc. destruct (fst x) as [s|].
+      - destruct Hn as [-> Hb]. apply Hb. rewrite Hc. eexists. reflexivity.
+      - rewrite Hn in Hc. apply app_inv_head in Hc. apply dec_nat_inj in Hc. lia. }
+    rewrite Hex. apply (Hnew CWild). rewrite Hlen. reflexivity.
+  - set (nm := c0 :: nm0) in *.
+    pose proof (find_named_b nm (fun c => cat_set_dest c d') (rd_cats d) (rr_cats r) 0 R3 Hname) as Hfn.
+    destruct (find_cat (rd_cats d) nm 0) as [ci|].
+    + destruct Hfn as (j & c & -> & Hj & Hnj & Hej & Huj). cbn [plus]. rewrite Hej, Huj. intros H. injection H as <- <-.
+      destruct (nth_error (rd_cats d) j) as [[cnj dj]|] eqn:Ej; [|apply nth_error_None in Ej; lia].
+      pose proof (number_from_nth' _ 0 _ _ Ej) as Enx.
+      destruct (Forall2_nth _ _ _ _ _ R3 Enx) as (c' & Ec' & [Hn' _]). rewrite Hnj in Ec'. injection Ec' as <-.
+      constructor; cbn.
+      * reflexivity.
+      * exact R2.
+      * unfold set_cat_dest. rewrite Ej. rewrite number_from_update. apply Forall2_update; [exact R3|]. split; cbn [fst snd] in *; [exact Hn'|exact Hd].
+      * rewrite (map_uuid_update _ _ _ _ Hnj). exact R4.
+    + rewrite Hfn. apply (Hnew (CFixed nm)). split; [reflexivity|exact Hname].
 Qed.
 End AddCase.
+End WithNames.
